@@ -112,6 +112,22 @@ def gen_specs(run):
             v["log"] = (i % 3 == 0) if big else True
         specs.append({"id": f"c05-{ci}", "group": group, "members": [mem], "derived": derived, "verifies": verifies, "_tags": tags,
                       "_conf": [b, m, T, group], "with_gens": False})
+    # the same binding inside a batch that spans several internal chunks: the altered triple sits in the trailing partial chunk
+    for bi, (k, pos) in enumerate([(257, 256), (300, 299)] if quick else [(257, 256), (300, 299), (513, 512), (600, 511), (258, 0)]):
+        mems = [gen.mk_member(rng, 2, 1, T=1) for _ in range(4)]
+        alter = rng.choice([{"op": "scalar_add", "field": "s1", "hex": gen.hx(1)}, {"op": "point_set", "field": "a", "to": {"junk": 99}}, {"op": "dup_round", "idx": 0}])
+        derived = [{"from": pos % 4, "ops": [alter]}]
+        vm = [gen.vmember(mems[i % 4], i % 4) for i in range(k)]
+        base = {"mode": "VerifyOnly", "vmembers": list(vm), "log": False}
+        vm2 = list(vm)
+        vm2[pos] = gen.vmember(mems[pos % 4], 4)
+        vm3 = list(vm)
+        st = gen.stmt_of(mems[pos % 4])
+        st["promises"][0] = "1" if st["promises"][0] in (None, "0") else str(int(st["promises"][0]) - 1)
+        vm3[pos] = {"proof": pos % 4, "stmt": st, "ctx": mems[pos % 4]["ctx"]}
+        specs.append({"id": f"c05-batch-{bi}", "group": "fm", "members": mems, "derived": derived,
+                      "verifies": [base, {"mode": "VerifyOnly", "vmembers": vm2, "log": False}, {"mode": "VerifyOnly", "vmembers": vm3, "log": False}],
+                      "_tags": ["base", f"batch[{pos}/{k}]: proof altered", f"batch[{pos}/{k}]: promise altered"], "_conf": [2, 1, 1, "fm"], "with_gens": False, "_batch": True})
     return specs
 
 
@@ -133,7 +149,7 @@ def oracle(run, s, o):
             run.bump("rejected at decoding")
             continue
         pi = vs["vmembers"][0]["proof"]
-        if pi >= 1 and o["derived"][pi - 1].get("bytes") == base_bytes:
+        if not s.get("_batch") and pi >= 1 and o["derived"][pi - 1].get("bytes") == base_bytes:
             run.trivial()
             continue
         run.count(["c05", b, m, T, group, tag, res.split(":")[0]], {"bits": b, "m": m, "T": T, "group": group, "alteration": tag, "result": res[:70]})
